@@ -8,9 +8,12 @@ type StreamFacts struct {
 	Conn   string // client link name
 	Client string // caller's name (source of requests)
 	Server string // destination of requests
-	ID     uint64
-	Method string
-	Unary  bool
+	// ReqDest, if set, is the name under which the client addresses the server on this connection (a proxy rewrites it
+	// to Server on the way); responses still carry Server as their source
+	ReqDest string
+	ID      uint64
+	Method  string
+	Unary   bool
 	// HandlerReturned: the handler ran and returned while the connection was alive.
 	HandlerReturned bool
 	// CallerReset: the caller's context ended (cancel/deadline) before the RPC completed.
@@ -81,8 +84,12 @@ func CheckWire(tap []Ev, facts []StreamFacts) (viol []string, projections int, n
 				bad("%s id %d c->s #%d: no header", f.Conn, f.ID, e.Seq)
 				continue
 			}
-			if h.GetMethod() != f.Method || h.GetSource() != f.Client || h.GetDestination() != f.Server {
-				bad("%s id %d c->s #%d: header (%s,%s>%s) differs from the stream's (%s,%s>%s)", f.Conn, f.ID, e.Seq, h.GetMethod(), h.GetSource(), h.GetDestination(), f.Method, f.Client, f.Server)
+			reqDest := f.Server
+			if f.ReqDest != "" {
+				reqDest = f.ReqDest
+			}
+			if h.GetMethod() != f.Method || h.GetSource() != f.Client || h.GetDestination() != reqDest {
+				bad("%s id %d c->s #%d: header (%s,%s>%s) differs from the stream's (%s,%s>%s)", f.Conn, f.ID, e.Seq, h.GetMethod(), h.GetSource(), h.GetDestination(), f.Method, f.Client, reqDest)
 			}
 		}
 		for i, e := range p.s2c {
